@@ -8,7 +8,7 @@ WT=/tmp/confirm-$ID-$$
 git -C /repo worktree add -q --detach "$WT" HEAD || exit 2
 cleanup() { git -C /repo worktree remove --force "$WT" >/dev/null 2>&1; rm -rf "$WT"; }
 trap cleanup EXIT
-DEMO=$(python3 -c "import json,sys;print(json.load(open('$SRC/meta.json'))['demo_cmd'])" | sed -E "s#/tmp/wt2?/[A-Za-z0-9_-]*#$WT#g")
+DEMO=$(python3 -c "import json,sys;print(json.load(open('$SRC/meta.json'))['demo_cmd'])" | sed -E "s#/tmp/wt[0-9]?/[A-Za-z0-9_-]*#$WT#g")
 cp -r "$SRC/demo/." "$WT/" 2>/dev/null; rm -f "$WT/RUN.md"
 echo "== demo without patch (must pass)"
 ( eval "$DEMO" ) > "$WT.nopatch.log" 2>&1; RC0=$?
